@@ -9,6 +9,7 @@ import (
 func TestVerifReplay(t *testing.T) {
 	verifsym.RunReplay(t, map[string]any{
 		"Verif_C03_NameValid":    Verif_C03_NameValid,
+		"Verif_C03_ManyFallback": Verif_C03_ManyFallback,
 		"Verif_C03_ManyClash":    Verif_C03_ManyClash,
 		"Verif_C03_History":      Verif_C03_History,
 		"Verif_C03_RawNamer":     Verif_C03_RawNamer,
